@@ -13,7 +13,7 @@ R6.5 consume = match: on every path of one tokenizer iteration the number of par
 R6.6 payload pass-through: Token::Int/Float/Boolean/String(x) builds Const{Value::<same>(x)} and the Const arm returns a clone.
 Not decided: what i64::from_str / f64::from_str accept and return (trusted std; e.g. that `inf`/`nan` parse as floats)."""
 import tables
-from absint import Interp, SYM, C, ADT, OK, ERR, SOME, NONE, Fork, Stop, fmt, is_adt, Budget
+from absint import Interp, SYM, C, ADT, OK, ERR, SOME, NONE, Fork, Stop, fmt, is_adt, Budget, P_OK, P_ERR, P_SOME, expand_results, apps, has_subterm
 from mirlib import short, path_endswith, callee_matches, op_place, resolve_place
 from rules.tokpaths import iteration_paths, lookahead_index, TOK
 from rules.treepaths import branches_of, is_true, seed
@@ -261,7 +261,7 @@ def r63_65(ctx, prog):
                 if not (isinstance(t, tuple) and len(t) == 2 and isinstance(t[0], str)) or t[0] == 'eq':
                     continue
                 term = t[0]
-                allowed = (term.startswith('discriminant(') and any(k in term for k in ('strip_prefix(', 'from_hex_str(', 'from_str::<', 'parse::<', '::cloned(', 'map_err('))) \
+                allowed = (term.startswith('discriminant(') and any(k in term for k in ('strip_prefix(', 'from_hex_str(', 'from_str::<', 'parse::<', '::cloned(', '::get($tokens, ', 'map_err('))) \
                     or ('PartialEq::eq(' in term and 'PartialToken::' in term)
                 if not allowed and '$tokens' in term:
                     ctx.violation('R6.3', 'literal-path[extra-test]', 'extra-gate', 'the classification of a word depends on an additional test of its text (%s = %s) besides the int/float/bool/join attempts; such a gate changes which words are numbers (e.g. `.5e-3`)' % (term[:120], t[1]), span=f.span)
@@ -302,9 +302,16 @@ def r64(ctx, prog):
     decp = [p for p in ps if any('strip_prefix' in fmt(v) and t != C(1) for v, t in branches_of(p[1]))]
     prefix = {fmt(e[2][1]) for p in ps for e in p[1] if not e[0].startswith('<') and e[0].split('::')[-1] == 'strip_prefix'}
     ctx.check(prefix == {"'0x'"}, 'R6.4', 'hex-prefix', 'prefix', 'the hexadecimal prefix is exactly "0x" (found %s)' % sorted(prefix), span=f.span)
-    good = bool(hexp) and all('from_hex_str' in fmt(p[0]) and "strip_prefix($literal, '0x').as Some.0" in fmt(p[0]).replace('core::str::<impl str>::', '') for p in hexp)
+    strip = [(n, a) for p in ps for e in p[1] if not e[0].startswith('<') and e[0].split('::')[-1] == 'strip_prefix' for n, a in [(e[0], e[2])]]
+    rest = P_SOME(('app', strip[0][0], tuple(strip[0][1]))) if strip else None
+
+    def ok_payloads(paths):
+        return [r[4][0] for r in expand_results([p[0] for p in paths]) if is_adt(r, 'result::Result', 'Ok')]
+    hp = ok_payloads(hexp)
+    good = bool(hp) and all(any(n.endswith('from_hex_str') and a == (rest,) for n, a in apps(v)) for v in hp)
     ctx.check(good, 'R6.4', 'hex-path', 'hex', 'with the prefix, the remainder is parsed by EvalexprInt::from_hex_str (%s)' % [fmt(p[0])[:120] for p in hexp], span=f.span)
-    good = bool(decp) and all('from_str::<' in fmt(p[0]) and '$literal' in fmt(p[0]) and 'Int' in fmt(p[0]) for p in decp)
+    dp = ok_payloads(decp)
+    good = bool(dp) and all(any('from_str::<' in n and 'Int' in n and a == (SYM('literal'),) for n, a in apps(v)) and not any(n.endswith('from_hex_str') for n, a in apps(v)) for v in dp)
     ctx.check(good, 'R6.4', 'dec-path', 'dec', 'without the prefix, the whole word is parsed by FromStr of the integer type (%s)' % [fmt(p[0])[:120] for p in decp], span=f.span)
     h = [x for x in prog.fns if x.name == 'from_hex_str' and x.j.get('impl_self_ty') == 'i64']
     if len(h) != 1:
@@ -312,7 +319,9 @@ def r64(ctx, prog):
         return
     ps = Interp(prog).paths(h[0], [SYM('literal')])
     s = [fmt(p[0]) for p in ps]
-    good = len(ps) == 1 and 'from_str_radix($literal, 16)' in s[0].replace('core::num::<impl i64>::', '')
+    oks = [r[4][0] for r in expand_results([p[0] for p in ps]) if is_adt(r, 'result::Result', 'Ok')]
+    core = [(n, a) for v in oks for n, a in apps(v)]
+    good = bool(oks) and all(v[0] == 'proj' and v[2] == ('as Ok', '0') and v[1][0] == 'app' and v[1][1].endswith('i64>::from_str_radix') and v[1][2] == (SYM('literal'), C(16)) for v in oks)
     ctx.check(good, 'R6.4', 'hex-radix', 'radix', 'from_hex_str is i64::from_str_radix(literal, 16) (%s)' % s, span=h[0].span)
 
 
